@@ -303,6 +303,14 @@ func (c *c10) apply(v *pgen.Value, op PEditOp) (exist bool, err error, skip bool
 
 // ---- random histories ----
 
+// a float32 travels through the reference implementation as a float64: signalling NaNs do not survive that, so none are generated
+func quietF32(b uint32) uint32 {
+	if b&0x7f800000 == 0x7f800000 && b&0x007fffff != 0 {
+		b |= 0x00400000
+	}
+	return b
+}
+
 func altScalar(r *rand.Rand, v PVal) PVal {
 	out := PVal{K: v.K, B: append(B{}, v.B...), F: []PEntry{}}
 	switch v.K {
@@ -313,7 +321,9 @@ func altScalar(r *rand.Rand, v PVal) PVal {
 		r.Read(out.B)
 	case "bool":
 		out.B = be8(int64(r.Intn(2)))
-	case "float", "fixed32", "sfixed32":
+	case "float":
+		out.B = be4(quietF32(r.Uint32()))
+	case "fixed32", "sfixed32":
 		out.B = be4(r.Uint32())
 	case "int32", "sint32", "enum":
 		out.B = be8(int64(int32(randU64(r))))
